@@ -98,6 +98,13 @@ func targetedValues() []namedValue {
 		fields[0].Type = cadence.NewOptionalType(node)
 		add("type-recursive-through-field", cadence.NewTypeValue(node))
 
+		// an attachment whose base type refers back to the attachment (through an initializer of the base)
+		baseParams := []cadence.Parameter{{Label: "att", Identifier: "att"}}
+		base := cadence.NewStructType(loc, "C.Base", []cadence.Field{{Identifier: "x", Type: cadence.IntType}}, [][]cadence.Parameter{baseParams})
+		att := cadence.NewAttachmentType(loc, "C.Att", base, []cadence.Field{{Identifier: "k", Type: cadence.IntType}}, nil)
+		baseParams[0].Type = cadence.NewOptionalType(att)
+		add("type-attachment-base-refers-back-to-attachment", cadence.NewTypeValue(att))
+
 		bar := cadence.NewStructType(loc, "C.Bar", []cadence.Field{}, nil)
 		rep := cadence.NewStructType(loc, "C.Rep", []cadence.Field{{Identifier: "a", Type: bar}},
 			[][]cadence.Parameter{{{Label: "a", Identifier: "a", Type: bar}}})
